@@ -60,6 +60,19 @@ def judge_message(ctx, t, a, tm):
                   lambda: {'str': s[:120], 'back': repr(back)[:160]})
         back = parse_string(s)
         ctx.check('from_str(str(m)) == m', eq_typed(back, m), f'parse_string:{t}', case, None)
+        # the caller edits what it got; parsing the same text again still gives m
+        try:
+            back.time = 4242
+            for k in vars(back):
+                if k in midi1.DOMAIN:
+                    setattr(back, k, midi1.DOMAIN[k][0] if getattr(back, k) != midi1.DOMAIN[k][0] else midi1.DOMAIN[k][1])
+            if t == 'sysex':
+                back.data += (1,)
+        except Exception:
+            pass
+        again = Message.from_str(s)
+        ctx.check('from_str(str(m)) == m', eq_typed(again, m) and again is not back, f'str-stale-or-shared:{t}',
+                  case, lambda: repr(again)[:160])
         ctx.check('format_as_string == str', mido.format_as_string(m) == s
                   and mido.format_as_string(m, include_time=False) + f' time={tm}' == s,
                   'format_as_string', case, None)
@@ -218,6 +231,8 @@ def stream_case(ctx, seed):
         return
     ok = len(got) == len(model)
     why = {'len_got': len(got), 'len_want': len(model)}
+    objs = [id(g[0]) for g in got if g[0] is not None]
+    ctx.check('stream messages are distinct objects', len(set(objs)) == len(objs), 'stream-shared-object', case, None)
     if ok:
         for (g_msg, g_err), (kind, m, n) in zip(got, model):
             if kind == 'msg':
